@@ -5,6 +5,7 @@ import (
 	"math"
 	"os"
 	"path/filepath"
+	"strings"
 
 	"verif/core"
 	"verif/emit"
@@ -105,6 +106,17 @@ func c04Sets(tier string) []c04Set {
 		c04Set{"stream with leading empty doc", [][]any{{e, map[string]any{"a": 1}}, {map[string]any{"z": 2}}}},
 		c04Set{"empty upper layer", [][]any{{map[string]any{"a": 1}}, {e}}},
 		c04Set{"nested empty containers", [][]any{{map[string]any{"m": map[string]any{}, "l": []any{}, "k": map[string]any{"e": map[string]any{}}}}, {map[string]any{"m": map[string]any{"x": 1}}}}},
+	)
+	// values beyond the usual buffer sizes: a 70 000-character string (longer than a 64 KiB line buffer)
+	// and a 5 000-entry list, followed by more content and a second document
+	long := strings.Repeat("long-line ", 7000)
+	many := make([]any, 5000)
+	for i := range many {
+		many[i] = i
+	}
+	sets = append(sets,
+		c04Set{"very long string value", [][]any{{map[string]any{"a": 1, "s": long, "z": "after"}, map[string]any{"second": true}}, {map[string]any{"$match": map[string]any{"a": 1}, "y": 1}}}},
+		c04Set{"very long list", [][]any{{map[string]any{"a": 1, "l": many, "z": "after"}}, {map[string]any{"z": "upper"}}}},
 	)
 	return sets
 }
